@@ -868,3 +868,87 @@ class K(object):
 
 
 RT['c13_r8'] = rt_c13_r8
+
+
+_REBIND_SRC = '''
+def callee(x, y=1, *, z=2): return x
+def except_as(*args, **kwargs):
+    try:
+        raise ValueError
+    except ValueError as kwargs:
+        kwargs = {}
+    return callee(*args, **kwargs)
+def import_as(*args, **kwargs):
+    import collections as kwargs
+    return callee(*args, **kwargs)
+def import_plain(*args, **kwargs):
+    import kwargs
+    return callee(*args, **kwargs)
+def match_as(*args, **kwargs):
+    match {}:
+        case kwargs:
+            pass
+    return callee(*args, **kwargs)
+def match_rest(*args, **kwargs):
+    match {'q': 1}:
+        case {**kwargs}:
+            pass
+    return callee(*args, **kwargs)
+def match_star(*args, **kwargs):
+    match [1, 2]:
+        case [*args]:
+            pass
+    return callee(*args, **kwargs)
+def class_named(*args, **kwargs):
+    class kwargs(dict):
+        pass
+    return callee(*args, **kwargs)
+def untouched(*args, **kwargs):
+    import collections
+    try:
+        pass
+    except ValueError as e:
+        pass
+    match {}:
+        case other:
+            pass
+    class Local(object):
+        pass
+    return callee(*args, **kwargs)
+'''
+
+
+def rt_rebinding_forms(req):
+    """C05, last sentence: *args / **kwargs rebound by a binding form that is not an assignment (`except … as`, `import … as`,
+    `case name`, `case {**name}`, `case [*name]`, `class name`): the callee's corresponding parameters are not advertised;
+    the same forms binding OTHER names change nothing"""
+    import warnings
+    import sigtools
+    from sigtools import signatures
+    from . import progs
+    mod, fname = progs.load_module(_REBIND_SRC)
+    problems = []
+    try:
+        with warnings.catch_warnings():
+            warnings.simplefilter('ignore')
+            for nm, star in (('except_as', 'K'), ('import_as', 'K'), ('import_plain', 'K'), ('match_as', 'K'), ('match_rest', 'K'),
+                             ('match_star', 'A'), ('class_named', 'K')):
+                f = getattr(mod, nm)
+                sig = sigtools.signature(f)
+                if str(sig) == str(signatures.signature(f)):
+                    continue
+                names = list(sig.parameters)
+                bad = [n for n in names if n in (('z',) if star == 'K' else ('x', 'y'))]
+                if star == 'K' and any(sig.parameters[n].kind.name in ('POSITIONAL_OR_KEYWORD', 'KEYWORD_ONLY') for n in names if n in ('x', 'y', 'z')):
+                    bad = [n for n in names if n in ('x', 'y', 'z') and sig.parameters[n].kind.name in ('POSITIONAL_OR_KEYWORD', 'KEYWORD_ONLY')]
+                if bad:
+                    problems.append('rebound-star-advertised: %s rebinds %s by a non-assignment binding form, yet sigtools.signature = %s advertises %s of the callee' % (
+                        nm, '**kwargs' if star == 'K' else '*args', sig, bad))
+            if str(sigtools.signature(mod.untouched)) != '(x, y=1, *, z=2)':
+                problems.append('binding-forms-of-other-names: sigtools.signature(untouched) = %s' % sigtools.signature(mod.untouched))
+    finally:
+        progs.unload(fname)
+    return ('ok', tuple(problems[:8]), 'rebinding_forms')
+
+
+RT['rebinding_forms'] = rt_rebinding_forms
